@@ -149,6 +149,8 @@ def capture(fn, tty, pair=None):
     attrs[1] &= ~termios.OPOST  # no NL -> CRNL translation: the master sees what was written
     termios.tcsetattr(slave, termios.TCSANOW, attrs)
     chunks = []
+    sentinel = b"\x00\x00<end-of-capture>\x00\x00"
+    seen = threading.Event()
 
     def reader():
         while True:
@@ -159,6 +161,9 @@ def capture(fn, tty, pair=None):
             if not data:
                 break
             chunks.append(data)
+            if sentinel in b"".join(chunks[-3:]):
+                seen.set()
+                break
 
     th = threading.Thread(target=reader, daemon=True)
     th.start()
@@ -176,13 +181,20 @@ def capture(fn, tty, pair=None):
         sys.__stdout__ = saved_dunder
         try:
             out.flush()
+            # the slave is closed only after the master side has received everything: closing it
+            # while data is still in flight can lose the tail under heavy machine load
+            os.write(slave, sentinel)
             termios.tcdrain(slave)
         except Exception:
             pass
+        seen.wait(120)
         out.close()  # closes the slave: the reader gets EIO / EOF
-    th.join(5)
+    th.join(120)
     os.close(master)
-    return b"".join(chunks).decode("utf-8"), exc
+    data = b"".join(chunks)
+    if sentinel in data:
+        data = data[:data.index(sentinel)]
+    return data.decode("utf-8"), exc
 
 
 _rmod.sleep = SLEEPER
